@@ -205,8 +205,29 @@ fn check_tree(entries: &[(u8, u8, u8)], change: u8, pick: u16, order_seed: u64) 
     // a single point change must change the hash
     let mut changed = files.clone();
     let i = crate::verif::gen::pick(pick, changed.len());
-    let what = match change % 4
+    let what = match change % 5
     {
+        4 =>
+        {
+            // move bytes from the end of one file to the start of the next file in listing order:
+            // names and the concatenation of all contents stay the same
+            let mut order: Vec<usize> = (0..changed.len()).collect();
+            order.sort_by(|a, b| changed[*a].0.cmp(&changed[*b].0));
+            let mut moved = false;
+            for w in order.windows(2)
+            {
+                let same_dir = changed[w[0]].0.rsplit_once('/').map(|x| x.0) == changed[w[1]].0.rsplit_once('/').map(|x| x.0);
+                if same_dir && !changed[w[0]].1.is_empty()
+                {
+                    let tail = changed[w[0]].1.pop().unwrap();
+                    changed[w[1]].1.insert(0, tail);
+                    moved = true;
+                    break;
+                }
+            }
+            if !moved { changed[i].1.push('!'); }
+            "bytes moved between two files"
+        }
         0 => { changed[i].1.push('!'); "content changed" }
         1 =>
         {
